@@ -534,7 +534,10 @@ func checkC15(c C15Case) (*Violation, []string, *caseInfo) {
 		if !r1.err && r1.pan == "" {
 			stats.probe("live-document-patched-in-place-with-live-diff")
 		}
-		if !(r1.pan != "" && r2.pan != "") && r1.String() != r2.String() {
+		// judged only when the diff applies to clean copies at all: a diff that
+		// does not apply even then is broken for reasons that have nothing to
+		// do with purity (C01's subject)
+		if !r2.err && r2.pan == "" && r1.String() != r2.String() {
 			return viol15("still-patches-in-place", "Patch", "after the history %s, A.Patch(%s) on the very values the history used gives %s; fresh copies of the original document and diff give %s", strings.Join(ops, " · "), s.name, showStr(r1.String()), showStr(r2.String())), w.log, info
 		}
 	}
